@@ -238,6 +238,10 @@ pub mod verif_hooks_g9;
 #[cfg(gmsol_verif)]
 pub mod verif_hooks_g7;
 
+/// Verification-only hooks (thin wrappers, no logic).
+#[cfg(gmsol_verif)]
+pub mod verif_hooks_g4;
+
 use self::{
     instructions::*,
     ops::{
